@@ -179,7 +179,7 @@ def run(tier):
                            "half_pixel_disparities": bool(mm["subpix"] > 1 or mm["refinement"]), "odd_column_offset": bool(mm.get("col_parity", 0))},
                           {"meta": mm, "detail": v["detail"]}, f"{cid}: {clause} {v['detail']} {mm}")
     chk.extra["cone_interior_pixels_compared"] = compared
-    if compared == 0:
+    if compared == 0 and not chk.violations:
         raise __import__("vp.core", fromlist=["x"]).MachineryFailure("no cone-interior pixel was compared")
     chk.rule = ("whole-image runs (12-20 x 30-60, integer radiometry, optional masks) of random local pipelines vs runs on crops at every "
                 "row/column start parity (and ends on/inside the border), plus vertical flips; distinct = distinct (problem, pipeline, crop)")
